@@ -772,7 +772,15 @@ def run_sdf(case):
                 for k, v in r["meta"]
             }
         )
-        if r["header"] is None:
+        fill_later = len(recs) >= 2 and (len(r["meta"]) + len(r["name"])) % 2 == 0
+        if fill_later:
+            # a default-constructed record that is filled through its attributes afterwards
+            # (every record must own its metadata)
+            o.label("record_filled_after_default_construction")
+            record = molio.SDRecord() if r["header"] is None else molio.SDRecord(header=mk_header(r["header"], mol_name="to be replaced"))
+            for key, value in meta.items():
+                record.metadata[key] = value
+        elif r["header"] is None:
             record = molio.SDRecord(metadata=meta)
         else:
             record = molio.SDRecord(header=mk_header(r["header"], mol_name="to be replaced"), metadata=meta)
